@@ -1,9 +1,11 @@
 package namer
 
 import (
+	"go/token"
 	"slices"
 	"strconv"
 	"strings"
+	"unicode"
 
 	"github.com/octohelm/gengo/pkg/camelcase"
 	gengotypes "github.com/octohelm/gengo/pkg/types"
@@ -75,7 +77,23 @@ func (tracker *defaultImportTracker) bind(path string, localName string) bool {
 }
 
 func toLocalName(parts ...string) string {
-	return strings.ToLower(camelcase.LowerCamelCase(strings.Join(parts, "")))
+	name := strings.Map(func(r rune) rune {
+		if r == '_' || unicode.IsLetter(r) || unicode.IsDigit(r) {
+			return r
+		}
+		return -1
+	}, strings.ToLower(camelcase.LowerCamelCase(strings.Join(parts, ""))))
+
+	if strings.Trim(name, "_") == "" {
+		return "pkg"
+	}
+
+	// keyword or leading digit
+	if !token.IsIdentifier(name) {
+		return "_" + name
+	}
+
+	return name
 }
 
 func golangTrackerLocalName(pathSegments []string, n int) string {
